@@ -1,9 +1,10 @@
 (* C15 - property theorems about the GENERATED model of the code (build/C15/ShapeFactors_gen.v,
    regenerated from kawin/precipitation/parameters/ShapeFactors.py on every run): the statements of
    coq/C15/Properties.v with the generated definitions in place of the hand model.  Bridge.v proves the
-   generated definitions equal to the hand model by conversion; here each theorem is closed by [exact]
-   of the lemma about the hand model, which the kernel accepts only if the generated text still
-   unfolds to the hand model.  Each theorem is followed by Print Assumptions.
+   generated definitions EQUAL to the hand model (by conversion where the normalised text coincides, by small
+   pointwise lemmas where an equivalent idiom is used: Rmax for the clamp, c for c * 1, the loop update in normal
+   form) and transfers every theorem (lemmas gen_...); here each theorem is closed by [exact] of its transfer
+   lemma and followed by Print Assumptions.
    Compiled by the check only (logical path KawinRun), never by the static make. *)
 From Coq Require Import Reals List Bool ZArith.
 Require Import Kawin.Common.Ops Kawin.Common.Vec Kawin.C15.Model Kawin.C15.Proofs Kawin.C15.Bisection Kawin.C15.Analysis.
@@ -12,57 +13,57 @@ Open Scope R_scope.
 
 (* ---- the clamp builds a new array (the source does not use the in-place idiom) ------------------ *)
 Theorem C15_gen_no_inplace_write : processAspectRatio_inplace_gen = false.
-Proof. exact br_no_inplace_write. Qed.
+Proof. exact (gen_no_inplace_write). Qed.
 Print Assumptions C15_gen_no_inplace_write.
 
 (* ---- semi-axes ------------------------------------------------------------------------------------ *)
 Theorem C15_gen_sphere_axes ar :
   let v := Sphere_normalRadii_public_gen ar in
   ellipsoid_volume (ax1 v) (ax2 v) (ax3 v) = 1 /\ ax1 v = ax2 v /\ ax2 v = ax3 v /\ 0 < ax1 v.
-Proof. exact (sphere_axes_public ar). Qed.
+Proof. exact (gen_sphere_axes ar). Qed.
 Print Assumptions C15_gen_sphere_axes.
 
 Theorem C15_gen_needle_axes ar : 1 <= ar ->
   let v := Needle_normalRadii_public_gen ar in
   ellipsoid_volume (ax1 v) (ax2 v) (ax3 v) = 1 /\ ax1 v = ax2 v /\ ax3 v = ar * ax1 v /\ 0 < ax1 v.
-Proof. exact (needle_axes_public ar). Qed.
+Proof. exact (gen_needle_axes ar). Qed.
 Print Assumptions C15_gen_needle_axes.
 
 Theorem C15_gen_plate_axes ar : 1 <= ar ->
   let v := Plate_normalRadii_public_gen ar in
   ellipsoid_volume (ax1 v) (ax2 v) (ax3 v) = 1 /\ ax1 v = ax2 v /\ ax1 v = ar * ax3 v /\ 0 < ax3 v.
-Proof. exact (plate_axes_public ar). Qed.
+Proof. exact (gen_plate_axes ar). Qed.
 Print Assumptions C15_gen_plate_axes.
 
 Theorem C15_gen_cuboidal_axes ar : 1 <= ar ->
   let v := Cuboidal_normalRadii_public_gen ar in
   cuboid_volume (ax1 v) (ax2 v) (ax3 v) = 1 /\ ax1 v = ax2 v /\ ax3 v = ar * ax1 v /\ 0 < ax1 v.
-Proof. exact (cuboidal_axes_public ar). Qed.
+Proof. exact (gen_cuboidal_axes ar). Qed.
 Print Assumptions C15_gen_cuboidal_axes.
 
 (* ---- geometric meaning of the factors -------------------------------------------------------------- *)
 Theorem C15_gen_needle_thermo_is_area_ratio a ar : 0 < a -> 1 < ar ->
   Needle_thermoFactor_public_gen ar =
   prolate_area a (ar * a) / sphere_area (eq_sphere_radius (ellipsoid_volume a a (ar * a))).
-Proof. exact (needle_thermo_public_area a ar). Qed.
+Proof. exact (gen_needle_thermo_is_area_ratio a ar). Qed.
 Print Assumptions C15_gen_needle_thermo_is_area_ratio.
 
 Theorem C15_gen_plate_thermo_is_area_ratio c ar : 0 < c -> 1 < ar ->
   Plate_thermoFactor_public_gen ar =
   oblate_area (ar * c) c / sphere_area (eq_sphere_radius (ellipsoid_volume (ar * c) (ar * c) c)).
-Proof. exact (plate_thermo_public_area c ar). Qed.
+Proof. exact (gen_plate_thermo_is_area_ratio c ar). Qed.
 Print Assumptions C15_gen_plate_thermo_is_area_ratio.
 
 Theorem C15_gen_needle_kinetic_is_capacitance_ratio a ar : 0 < a -> 1 < ar ->
   Needle_kineticFactor_public_gen ar =
   prolate_capacitance a (ar * a) / eq_sphere_radius (ellipsoid_volume a a (ar * a)).
-Proof. exact (needle_kinetic_public_capacitance a ar). Qed.
+Proof. exact (gen_needle_kinetic_is_capacitance_ratio a ar). Qed.
 Print Assumptions C15_gen_needle_kinetic_is_capacitance_ratio.
 
 Theorem C15_gen_plate_kinetic_is_capacitance_ratio c ar : 0 < c -> 1 < ar ->
   Plate_kineticFactor_public_gen ar =
   oblate_capacitance (ar * c) c / eq_sphere_radius (ellipsoid_volume (ar * c) (ar * c) c).
-Proof. exact (plate_kinetic_public_capacitance c ar). Qed.
+Proof. exact (gen_plate_kinetic_is_capacitance_ratio c ar). Qed.
 Print Assumptions C15_gen_plate_kinetic_is_capacitance_ratio.
 
 Theorem C15_gen_eqRadius_is_equal_volume_radius s ar : 0 < s -> 1 < ar ->
@@ -70,13 +71,13 @@ Theorem C15_gen_eqRadius_is_equal_volume_radius s ar : 0 < s -> 1 < ar ->
   Plate_eqRadiusFactor_public_gen ar = eq_sphere_radius (ellipsoid_volume (ar * s) (ar * s) s) / s /\
   Cuboidal_eqRadiusFactor_public_gen ar = eq_sphere_radius (cuboid_volume s s (ar * s)) / s /\
   sphere_volume (eq_sphere_radius (ellipsoid_volume s s (ar * s))) = ellipsoid_volume s s (ar * s).
-Proof. exact (eqRadius_public_geom s ar). Qed.
+Proof. exact (gen_eqRadius_is_equal_volume_radius s ar). Qed.
 Print Assumptions C15_gen_eqRadius_is_equal_volume_radius.
 
 Theorem C15_gen_cuboidal_thermo_is_area_ratio s ar : 0 < s -> 1 < ar ->
   Cuboidal_thermoFactor_public_gen ar =
   cuboid_area s s (ar * s) / sphere_area (eq_sphere_radius (cuboid_volume s s (ar * s))).
-Proof. exact (cuboidal_thermo_public_area s ar). Qed.
+Proof. exact (gen_cuboidal_thermo_is_area_ratio s ar). Qed.
 Print Assumptions C15_gen_cuboidal_thermo_is_area_ratio.
 
 (* ---- 1 at aspect ratio 1, increasing ---------------------------------------------------------------- *)
@@ -84,41 +85,37 @@ Theorem C15_gen_factors_one_at_one ar : ar <= 1 ->
   (Sphere_eqRadiusFactor_public_gen ar = 1 /\ Sphere_kineticFactor_public_gen ar = 1 /\ Sphere_thermoFactor_public_gen ar = 1) /\
   (Needle_eqRadiusFactor_public_gen ar = 1 /\ Needle_kineticFactor_public_gen ar = 1 /\ Needle_thermoFactor_public_gen ar = 1) /\
   (Plate_eqRadiusFactor_public_gen ar = 1 /\ Plate_kineticFactor_public_gen ar = 1 /\ Plate_thermoFactor_public_gen ar = 1).
-Proof.
-  exact (fun H => conj (factors_one_at_one ar H Sphere (or_introl eq_refl))
-               (conj (factors_one_at_one ar H Needle (or_intror (or_introl eq_refl)))
-                     (factors_one_at_one ar H Plate (or_intror (or_intror (or_introl eq_refl)))))).
-Qed.
+Proof. exact (gen_factors_one_at_one ar). Qed.
 Print Assumptions C15_gen_factors_one_at_one.
 
 Theorem C15_gen_needle_eqRadius_increasing x y : 1 <= x -> x < y ->
   Needle_eqRadiusFactor_public_gen x < Needle_eqRadiusFactor_public_gen y.
-Proof. exact (needle_eqRadius_incr x y). Qed.
+Proof. exact (gen_needle_eqRadius_increasing x y). Qed.
 Print Assumptions C15_gen_needle_eqRadius_increasing.
 
 Theorem C15_gen_plate_eqRadius_increasing x y : 1 <= x -> x < y ->
   Plate_eqRadiusFactor_public_gen x < Plate_eqRadiusFactor_public_gen y.
-Proof. exact (plate_eqRadius_incr x y). Qed.
+Proof. exact (gen_plate_eqRadius_increasing x y). Qed.
 Print Assumptions C15_gen_plate_eqRadius_increasing.
 
 Theorem C15_gen_needle_kinetic_increasing x y : 1 <= x -> x < y ->
   Needle_kineticFactor_public_gen x < Needle_kineticFactor_public_gen y.
-Proof. exact (needle_kineticFactor_incr x y). Qed.
+Proof. exact (gen_needle_kinetic_increasing x y). Qed.
 Print Assumptions C15_gen_needle_kinetic_increasing.
 
 Theorem C15_gen_plate_kinetic_increasing x y : 1 <= x -> x < y ->
   Plate_kineticFactor_public_gen x < Plate_kineticFactor_public_gen y.
-Proof. exact (plate_kineticFactor_incr x y). Qed.
+Proof. exact (gen_plate_kinetic_increasing x y). Qed.
 Print Assumptions C15_gen_plate_kinetic_increasing.
 
 Theorem C15_gen_needle_thermo_increasing x y : 1 <= x -> x < y ->
   Needle_thermoFactor_public_gen x < Needle_thermoFactor_public_gen y.
-Proof. exact (needle_thermoFactor_incr x y). Qed.
+Proof. exact (gen_needle_thermo_increasing x y). Qed.
 Print Assumptions C15_gen_needle_thermo_increasing.
 
 Theorem C15_gen_plate_thermo_increasing x y : 1 <= x -> x < y ->
   Plate_thermoFactor_public_gen x < Plate_thermoFactor_public_gen y.
-Proof. exact (plate_thermoFactor_incr x y). Qed.
+Proof. exact (gen_plate_thermo_increasing x y). Qed.
 Print Assumptions C15_gen_plate_thermo_increasing.
 
 (* ---- continuity at aspect ratio 1, every factor of every shape ------------------------------------- *)
@@ -127,12 +124,7 @@ Theorem C15_gen_continuous_at_one :
   (continuity_pt Needle_eqRadiusFactor_public_gen 1 /\ continuity_pt Needle_kineticFactor_public_gen 1 /\ continuity_pt Needle_thermoFactor_public_gen 1) /\
   (continuity_pt Plate_eqRadiusFactor_public_gen 1 /\ continuity_pt Plate_kineticFactor_public_gen 1 /\ continuity_pt Plate_thermoFactor_public_gen 1) /\
   (continuity_pt Cuboidal_eqRadiusFactor_public_gen 1 /\ continuity_pt Cuboidal_kineticFactor_public_gen 1 /\ continuity_pt Cuboidal_thermoFactor_public_gen 1).
-Proof.
-  exact (conj (continuous_at_one_all Sphere (or_introl eq_refl))
-        (conj (continuous_at_one_all Needle (or_intror (or_introl eq_refl)))
-        (conj (continuous_at_one_all Plate (or_intror (or_intror (or_introl eq_refl))))
-              (continuous_at_one_all Cuboidal (or_intror (or_intror (or_intror (or_introl eq_refl)))))))).
-Qed.
+Proof. exact (gen_continuous_at_one). Qed.
 Print Assumptions C15_gen_continuous_at_one.
 
 (* ---- below 1 as 1 ------------------------------------------------------------------------------------ *)
@@ -142,7 +134,7 @@ Theorem C15_gen_below_one_as_one ar : ar < 1 ->
   kineticFactor_wrapper_gen (kinMin d) (kinRaw d) ar = kineticFactor_wrapper_gen (kinMin d) (kinRaw d) 1 /\
   thermoFactor_wrapper_gen (thMin d) (thRaw d) ar = thermoFactor_wrapper_gen (thMin d) (thRaw d) 1 /\
   normalRadii_wrapper_gen (radiiRaw d) ar = normalRadii_wrapper_gen (radiiRaw d) 1.
-Proof. exact (fun H d _ => below_one_as_one d ar H). Qed.
+Proof. exact (gen_below_one_as_one ar). Qed.
 Print Assumptions C15_gen_below_one_as_one.
 
 (* ---- ShapeFactor: functions of the radius are the description's at the aspect ratio of that radius -- *)
@@ -152,7 +144,7 @@ Theorem C15_gen_shapefactor_composition (d : description) (aspect : R -> R) (r :
   ShapeFactor_thermoFactor_gen (thermoFactor d) aspect r = thermoFactor d (aspect r) /\
   ShapeFactor_normalRadii_gen (normalRadii d) aspect r = normalRadii d (aspect r) /\
   (forall a, scalarAspectRatio_gen a r = a * 1) /\ setAspectRatio_dispatch_gen = true.
-Proof. exact (conj eq_refl (conj eq_refl (conj eq_refl (conj eq_refl (conj (fun a => eq_refl) eq_refl))))). Qed.
+Proof. exact (gen_shapefactor_composition d aspect r). Qed.
 Print Assumptions C15_gen_shapefactor_composition.
 
 (* ---- the critical-radius search (generated loop, real instance) -------------------------------------- *)
@@ -163,13 +155,13 @@ Theorem C15_gen_findRcrit_root (tf : R -> R) (Rs tol Rmax r : R) n :
   (Rs <= Rmax -> exists a b, Rs <= a /\ b <= Rmax /\ b - a = (Rmax - Rs) / 2 ^ n /\ r = (a + b) / 2) /\
   (0 <= tol -> (Rs / (Rs * tf Rs) - 1) * (Rmax / (Rs * tf Rmax) - 1) < 0 ->
      exists a b, r = (a + b) / 2 /\ b - a = (Rmax - Rs) / 2 ^ n /\ (a / (Rs * tf a) - 1) * (b / (Rs * tf b) - 1) < 0).
-Proof. exact (fun H => findRcrit_found_root tf Rs tol Rmax r n (eq_trans (eq_sym (br_findRcrit Rops tf Rs tol Rmax)) H)). Qed.
+Proof. exact (gen_findRcrit_root tf Rs tol Rmax r n). Qed.
 Print Assumptions C15_gen_findRcrit_root.
 
 Theorem C15_gen_findRcrit_relative (tf : R -> R) (Rs tol Rmax r : R) n :
   findRcrit_gen Rops tf Rs tol Rmax = Found Rops r n -> Rs * tf r <> 0 ->
   Rabs (r - Rs * tf r) <= tol * Rabs (Rs * tf r).
-Proof. exact (fun H => findRcrit_found_relative tf Rs tol Rmax r n (eq_trans (eq_sym (br_findRcrit Rops tf Rs tol Rmax)) H)). Qed.
+Proof. exact (gen_findRcrit_relative tf Rs tol Rmax r n). Qed.
 Print Assumptions C15_gen_findRcrit_relative.
 
 Theorem C15_gen_findRcrit_gaveup (tf : R -> R) (Rs tol Rmax : R) :
@@ -177,12 +169,7 @@ Theorem C15_gen_findRcrit_gaveup (tf : R -> R) (Rs tol Rmax : R) :
   findRcrit_value_gen Rops tf Rs tol Rmax = Rs /\
   forall j, (j <= 99)%nat ->
     tol < Rabs (objective Rops tf Rs (midR (biter Rops tf Rs j (findRcrit_init_gen Rops tf Rs Rmax)))).
-Proof.
-  exact (fun H =>
-    match findRcrit_gaveup tf Rs tol Rmax (eq_trans (eq_sym (br_findRcrit Rops tf Rs tol Rmax)) H) with
-    | conj H1 H2 => conj (eq_trans (br_findRcrit_value Rops tf Rs tol Rmax) H1) H2
-    end).
-Qed.
+Proof. exact (gen_findRcrit_gaveup tf Rs tol Rmax). Qed.
 Print Assumptions C15_gen_findRcrit_gaveup.
 
 Theorem C15_gen_findRcrit_converges (tf : R -> R) (Rs tol Rmax L : R) :
@@ -200,5 +187,5 @@ Theorem C15_gen_findRcritScalar_root (d : description) (a Rs Rmax : R) :
   let tf := ShapeFactor_thermoFactor_gen (thermoFactor d) (scalarAspectRatio_gen a) in
   let r := findRcritScalar_gen tf Rs Rmax in
   r = Rs * tf r /\ (Rs * tf Rs <> 0 -> r / (Rs * tf r) - 1 = 0).
-Proof. exact (findRcritScalar_exact d a Rs Rmax). Qed.
+Proof. exact (gen_findRcritScalar_root d a Rs Rmax). Qed.
 Print Assumptions C15_gen_findRcritScalar_root.
